@@ -202,6 +202,7 @@ type c16CaseOut struct {
 	Obs        []c16Obs
 	Complaints []c16Complaint
 	EverHeld   []int32
+	Unresolved []int
 }
 
 func c16Gid() uint64 {
@@ -281,6 +282,7 @@ type c16Driver struct {
 	step       int
 	complaints []c16Complaint
 	everHeld   map[int32]bool
+	unresolved []int // steps whose OReply named a request that did not exist (yet): sent with an unrelated id
 }
 
 func (d *c16Driver) complain(kind, format string, a ...any) {
@@ -310,7 +312,7 @@ func (d *c16Driver) idOf(corr string) int {
 	}
 	if strings.HasPrefix(corr, "unk-") {
 		n, _ := strconv.Atoi(corr[4:])
-		return n
+		return 1000 + n // a correlation id no request of this actor will ever carry (ids are fresh UUIDs)
 	}
 	return 999999
 }
@@ -479,6 +481,8 @@ func (d *c16Driver) apply(op [3]int, nextIsFinish bool) (skip bool) {
 		corr := "unk-" + strconv.Itoa(op[1])
 		if op[1] < len(d.reqs) {
 			corr = d.reqs[op[1]].state.id
+		} else {
+			d.unresolved = append(d.unresolved, d.step)
 		}
 		resp := &commands.AsyncResponse{CorrelationID: corr}
 		switch op[2] {
@@ -702,6 +706,7 @@ func TestVerifC16Ops(t *testing.T) {
 		}
 		sort.Slice(out.EverHeld, func(i, j int) bool { return out.EverHeld[i] < out.EverHeld[j] })
 		out.Complaints = d.complaints
+		out.Unresolved = d.unresolved
 		w.put(out)
 		// give the turn back and retire the actor
 		for _, r := range d.reqs {
@@ -761,6 +766,7 @@ type c16SActor struct {
 	reqs     []*c16SReq
 	handled  map[int32]int
 	stopping atomic.Bool
+	tolerant bool
 	stats    *c16StressOut
 	targets  []*PID
 	cancelCh chan *c16SReq
@@ -815,6 +821,12 @@ func (a *c16SActor) receive(rc *ReceiveContext) {
 	}
 	a.enter("Receive")
 	defer a.leave()
+	defer func() {
+		if r := recover(); r != nil {
+			buf := make([]byte, 2048)
+			a.viol.add("%s: harness panic in Receive: %v %s", a.name, r, buf[:runtime.Stack(buf, false)])
+		}
+	}()
 	if a.blockOut > 0 && !a.stopping.Load() {
 		a.viol.add("%s: ordinary message %d handled while %d StashNonReentrant request(s) are outstanding", a.name, m.GetValue(), a.blockOut)
 	}
@@ -847,15 +859,16 @@ func (a *c16SActor) receive(rc *ReceiveContext) {
 			opts = append(opts, WithRequestTimeout(time.Duration(200+a.rng.intn(2500))*time.Microsecond))
 		}
 		before := a.outst
-		call := rc.Request(a.targets[ti], &testpb.TestCount{Value: m.GetValue()}, opts...)
-		if call == nil {
+		// PID.request is what ReceiveContext.Request calls; going through rc.Request would also record the
+		// rejection with rc.Err, which hands the actor to its supervisor (and stops it)
+		call, err := a.pid.request(context.Background(), a.targets[ti], &testpb.TestCount{Value: m.GetValue()}, opts...)
+		if err != nil || call == nil {
 			atomic.AddInt64(&a.stats.Rejected, 1)
-			err := rc.getError()
 			if errors.Is(err, gerrors.ErrReentrancyInFlightLimit) {
 				if a.limit <= 0 || before < a.limit {
 					a.viol.add("%s: Request rejected with the in-flight limit %d although at most %d requests can be in flight (counter drift)", a.name, a.limit, before)
 				}
-			} else if !a.stopping.Load() {
+			} else if !a.stopping.Load() && !a.tolerant {
 				a.viol.add("%s: Request failed unexpectedly: %v", a.name, err)
 			}
 			continue
@@ -910,7 +923,6 @@ func TestVerifC16Stress(t *testing.T) {
 }
 
 func c16StressRound(t *testing.T, seed uint64, nReq, nMsg, round int) c16StressOut {
-	rng := newVerifRNG(seed)
 	out := c16StressOut{}
 	viol := &c16Viol{}
 	procs := []int{0, 2, 4, 1}[round%4]
@@ -921,23 +933,28 @@ func c16StressRound(t *testing.T, seed uint64, nReq, nMsg, round int) c16StressO
 	defer func() { _ = sys.Stop(ctx) }()
 	tr := newVerifRNG(seed + 7)
 	var trMu sync.Mutex
-	targets := []*PID{
-		c16Spawn(t, sys, ctx, "fast", func(rc *ReceiveContext) {
-			if _, ok := rc.Message().(*testpb.TestCount); ok {
-				rc.Response(&testpb.Reply{Content: "ok"})
-			}
-		}),
-		c16Spawn(t, sys, ctx, "slow", func(rc *ReceiveContext) {
-			if _, ok := rc.Message().(*testpb.TestCount); ok {
-				trMu.Lock()
-				d := tr.intn(1500)
-				trMu.Unlock()
-				time.Sleep(time.Duration(d) * time.Microsecond)
-				rc.Response(&testpb.Reply{Content: "ok"})
-			}
-		}),
-		c16Spawn(t, sys, ctx, "silent", func(*ReceiveContext) {}),
+	mkTargets := func(prefix string) []*PID {
+		return []*PID{
+			c16Spawn(t, sys, ctx, prefix+"fast", func(rc *ReceiveContext) {
+				if _, ok := rc.Message().(*testpb.TestCount); ok {
+					rc.Response(&testpb.Reply{Content: "ok"})
+				}
+			}),
+			c16Spawn(t, sys, ctx, prefix+"slow", func(rc *ReceiveContext) {
+				if _, ok := rc.Message().(*testpb.TestCount); ok {
+					trMu.Lock()
+					d := tr.intn(1500)
+					trMu.Unlock()
+					time.Sleep(time.Duration(d) * time.Microsecond)
+					rc.Response(&testpb.Reply{Content: "ok"})
+				}
+			}),
+			c16Spawn(t, sys, ctx, prefix+"silent", func(*ReceiveContext) {}),
+		}
 	}
+	// a responder whose reply cannot be delivered (requester stopped) records the failure with rc.Err and is
+	// handed to its supervisor, so the requesters that get stopped talk to responders of their own
+	targets, targetsOfStopped := mkTargets("a-"), mkTargets("b-")
 	cancelCh := make(chan *c16SReq, 1024)
 	cancelDone := make(chan struct{})
 	go func() {
@@ -952,6 +969,9 @@ func c16StressRound(t *testing.T, seed uint64, nReq, nMsg, round int) c16StressO
 	for i := 0; i < nReq+nStop; i++ {
 		a := &c16SActor{name: fmt.Sprintf("r%d", i), limit: []int{0, 2, 4, 1}[i%4], stashDef: i%2 == 1, rng: newVerifRNG(seed*31 + uint64(i)),
 			viol: viol, handled: map[int32]int{}, stats: &out, targets: targets, cancelCh: cancelCh}
+		if i >= nReq {
+			a.targets, a.tolerant = targetsOfStopped, true
+		}
 		mode := reentrancy.AllowAll
 		if a.stashDef {
 			mode = reentrancy.StashNonReentrant
